@@ -125,6 +125,9 @@ fn check_rel(v: &ly::Relation) -> Vec<Viol> {
     if conv.to_string() != printed {
         out.push(viol("conversion-prints-same", ctx(&format!("lossless::Relation::from prints {:?}", conv.to_string()))));
     }
+    if read_ll_rel(&conv) != read_ly_rel(v) {
+        out.push(viol("conversion-reads-same", ctx(&format!("the converted lossless relation reports {:?}", read_ll_rel(&conv)))));
+    }
     let back = ly::Relation::from(conv);
     if back != *v {
         out.push(viol("conversion-roundtrip", ctx(&format!("lossy -> lossless -> lossy gives {:?}", back))));
